@@ -172,6 +172,36 @@ pub fn render_frag(r: &R, fr: FnRef, sel: &str, header: &str) -> Result<(String,
     let sel = sel.trim();
     let block = fr.block();
     let (kind, rest) = sel.split_once(' ').unwrap_or((sel, ""));
+    if kind == "prefix" {
+        // prefix <n>: the first n statements of the function body, lifted to a function that returns `epilogue=`
+        // (a variable the statements define); a statement that starts using a variable the header does not declare no
+        // longer compiles, which ends undecided — not a silent pass
+        let n: usize = rest.trim().parse().map_err(|_| "bad prefix selector")?;
+        if block.stmts.len() < n || n == 0 {
+            return Err(format!("lost anchor: the function has {} statements, prefix {} asked", block.stmts.len(), n));
+        }
+        let ep = r.opts.get("epilogue").ok_or("prefix fragment needs epilogue=")?;
+        if let Some(sa) = r.opts.get("self_as") {
+            r.renames.borrow_mut().insert("self".into(), sa.to_string());
+        }
+        let body: Vec<String> = block.stmts[..n].iter().map(|st| r.stmt(st)).collect();
+        r.renames.borrow_mut().remove("self");
+        r.note(format!("fragment `{}` (the first {} statements) lifted to a function", sel, n));
+        let mut s = String::new();
+        s.push_str(header.trim_end());
+        s.push_str("\n{\n");
+        if let Some(pb) = r.opts.get("proof_before") {
+            s.push_str(&format!("    proof {{ {} }}\n", pb));
+        }
+        for b in &body {
+            s.push_str(&format!("    {}\n", b));
+        }
+        if let Some(pa) = r.opts.get("proof_after") {
+            s.push_str(&format!("    proof {{ {} }}\n", pa));
+        }
+        s.push_str(&format!("    {}\n}}", ep));
+        return Ok((s, block.stmts[0].span()));
+    }
     let mut lets: Vec<String> = vec![];
     let frag: &Expr = match kind {
         "closure" | "callarg" => {
